@@ -156,6 +156,8 @@ func c11Data() []any {
 		map[float64]string{2.5: "a", math.NaN(): "nan", math.Inf(-1): "-inf"}, map[bool]int{true: 1, false: 0}, map[S2]string{{1, "a"}: "s1", {0, ""}: "s0"}, map[*S2]int{nil: 0, {X: 1}: 1}, map[[2]int]string{{1, 2}: "a", {0, 9}: "b"},
 		map[any]any{S2{1, "a"}: 1, "s": 2, 3: []any{nil}}, map[uint8]any{200: nil, 3: map[any]any{1: 1, "1": 2}}, map[MyStr]int{"m": 1, "a": 2}, map[MyInt]string{2: "two", 1: "one"},
 		// strings that are nothing but the characters the attribute / style / class / pipe code strips, splits at or looks for
+		// numbers at the edges: negative, the extremes of the 64-bit kinds, infinities and NaN (a count, an index, a size somewhere?)
+		-1, int64(-3), float64(-2), int32(-7), float32(-1), int64(math.MinInt64), int64(math.MaxInt64), uint64(math.MaxUint64), math.Inf(1), math.Inf(-1), math.NaN(), 1e300, math.Copysign(0, -1),
 		"\"", "'", " ' ", "\"\"", "''", ":", ";", ",", "{", "}", "{}", "{{", "}}", "|", " ", "\n", "-", ".", "[", "]", "(", ")", "a:", ":a", ";;", "\"a", "a'", "\\", "%", "%s", "\x00"}
 }
 
